@@ -50,6 +50,7 @@ const EngineDef* find_engine(const std::string& name);
     ENGINE_DECL(pipeline) \
     ENGINE_DECL(fault) \
     ENGINE_DECL(eof) \
+    ENGINE_DECL(eofdec) \
     ENGINE_DECL(decode) \
     ENGINE_DECL(reencode) \
     ENGINE_DECL(sink) \
